@@ -6,7 +6,7 @@ import re
 from typing import Dict, List, Optional, Set, Tuple
 
 from ..astutil import Defs
-from ..cfg import cfg_of
+from ..cfg import feasible_path, cfg_of
 from ..core import AnalysisError, FuncInfo, attr_chain, cshort, short, walk_no_nested, walk_stmts
 from ..effects import effects_of
 from . import nameres
@@ -343,6 +343,9 @@ def _lookup(ctx) -> None:
     if not fallback:
         raise AnalysisError("Table.__getattr__: fallback to super().__getattribute__ not found")
     path = cfg.path_avoiding(cfg.entry, fallback, _is_map_lookup)
+    if path is not None:
+        # confirm with correlated branch outcomes (a path that needs `x is not None` and, after `y = x`, `y is None` is infeasible)
+        path = feasible_path(cfg, cfg.entry, fallback, _is_map_lookup)
     ctx.ob("e.lookup-reached", f, "getattr", path is None, "every path to the generic fallback consults the accessor map", fallback[0].ast,
            message="an advertised accessor can fail to resolve: a path reaches the generic attribute fallback without looking the name up "
                    "in the accessor map: " + (cfg.fmt_path([p for p in path if p.kind == "test" or p is path[-1]][-5:]) if path else ""),
@@ -360,6 +363,9 @@ def _lookup(ctx) -> None:
         return _is_map_lookup(n) or (n.kind == "test" and short(n.ast) == "self._column_map is not None")
     # paths that skip the lookup only because the table is not initialised yet are fine: block on the init test's F edge
     path = cfg.path_avoiding(cfg.entry, final, _is_map_lookup,
+                             edge_ok=lambda a, b, lab: not (a.kind == "test" and short(a.ast) == "self._column_map is not None" and lab == "F"))
+    if path is not None:
+        path = feasible_path(cfg, cfg.entry, final, _is_map_lookup,
                              edge_ok=lambda a, b, lab: not (a.kind == "test" and short(a.ast) == "self._column_map is not None" and lab == "F"))
     ctx.ob("e.lookup-reached", f, "setattr", path is None, "column assignment consults the accessor map before rejecting", final[0].ast,
            message="t.<accessor> = value can be rejected without looking the accessor up: " + (cfg.fmt_path(path[-5:]) if path else ""))
